@@ -220,6 +220,9 @@ void runScenario(const QJsonObject &scn)
                 f["func"] = nullCtx ? QString() : QString::fromStdString(func);
                 f["cat"] = nullCtx ? QString() : QString::fromStdString(cat);
                 f["tid"] = tid;
+                // (bare handler) the message reaches the hand-off with an attribute and a formatted text on it
+                f["pre"] = useLogger ? 0 : line;
+                f["fmt"] = useLogger ? QString() : QStringLiteral("F|") + text;
                 QJsonObject b;
                 b["e"] = "CallBegin";
                 b["t"] = QString::fromStdString(me);
@@ -240,6 +243,8 @@ void runScenario(const QJsonObject &scn)
                                   else Logger::messageHandler(ty, ctx, tx);   // what Qt calls for qFatal(), without its abort()
                               } else {
                                   LogMessage lm(ty, ctx, tx);
+                                  lm.setAttribute(QStringLiteral("pre"), line);
+                                  lm.setFormattedMessage(QStringLiteral("F|") + tx);
                                   bare->process(lm);
                               }
                           }, nullCtx);
